@@ -934,18 +934,26 @@ package framework
 // error is produced only for a rejected task, and only when asked for.
 //@ define fitsRelOrIdleCpuMem(node *node_info.NodeInfo, task *pod_info.PodInfo) bool = task.ResReq.milliCpu <= node.Idle.milliCpu + node.Releasing.milliCpu && task.ResReq.memory <= node.Idle.memory + node.Releasing.memory
 //@ define wholeGpuReq(task *pod_info.PodInfo) bool = task.ResourceRequestType == "Regular" || task.ResourceRequestType == "MigInstance"
-//@ define fitsRelOrIdleGpus(node *node_info.NodeInfo, task *pod_info.PodInfo) bool = resource_info.reqGpus(task.ResReq.GpuResourceRequirement) + real(task.ResReq.GetDraGpusCount()) <= node.Idle.gpus + node.Releasing.gpus
+//@ define fitsRelOrIdleGpus(node *node_info.NodeInfo, task *pod_info.PodInfo) bool = resource_info.reqGpus(task.ResReq.GpuResourceRequirement) + real(resource_info.draSum(task.ResReq.draGpuCounts)) <= node.Idle.gpus + node.Releasing.gpus
 //@ func (*Session).isTaskAllocatableOnNode
 //@   props C01 C04 C08
+//@   usestable []Operation Session.PredicateFns []api.PredicateFn Session.ClusterInfo Session.Cache Session.eventHandlers []*EventHandler ClusterInfo.PodGroupInfos ClusterInfo.Nodes map[common_info.PodGroupID]*podgroup_info.PodGroupInfo map[string]*node_info.NodeInfo
 //@   nopanic off
-//@   note nopanic off: with writeFittingDelta the body calls job.GetAllPodsMap() on the job looked up by FittingNode (nil if the task's job is not in the session; the only caller, common.allocateTask, checks that before)
+//@   note nopanic off: task / node are dereferenced for the log line; with writeFittingDelta the body calls job.GetAllPodsMap() on the job looked up by FittingNode (nil if the task's job is not in the session; the only caller chain, common.allocateTask -> FittingNode, checks that before)
 //@   assume node_info.nodeReadable(node) && node_info.taskReadable(task)
 //@   note assumed (precondition of node_info's IsTaskAllocatableOnReleasingOrIdle / IsTaskAllocatable): the node's Idle / Releasing / Used vectors and the task's ResReq exist - snapshot invariants that the callers (`modifies *` steps in between) cannot carry
-//@   assume job != nil ==> podgroup_info.setsOK(job)
-//@   note assumed (precondition of GetAllPodsMap): no nil pod set is recorded on a job - snapshot invariant
-//@   ensures [cpuMemGate] result0 ==> fitsRelOrIdleCpuMem(node, task)
-//@   ensures [wholeGpuGate] result0 && wholeGpuReq(task) ==> fitsRelOrIdleGpus(node, task)
+//@   assume writeFittingDelta ==> podgroup_info.setsOK(job)
+//@   note assumed (precondition of GetAllPodsMap, only reached with writeFittingDelta): the job exists and no nil pod set is recorded on it - snapshot invariant; common.allocateTask returns before FittingNode when the job is unknown
+//@   modifies *
+//@   trust [fittingErrorFrame] stmtsSame() && countersSame()
+//@   note [fittingErrorFrame] trusted: node_info.(*NodeInfo).FittingError has no contract (message formatting over clones of the node's resource vectors, fmt + resource-list printing: outside the subset), so its call havocs the heap; assumed is only that it touches no statement and none of the emission / reversal counters. The session skeleton and the registration slices survive the call through `stable` declarations (checked by govc from FittingError's call graph)
+//@   ensures [cpuMemGate] result0 ==> old(fitsRelOrIdleCpuMem(node, task))
+//@   ensures [wholeGpuGate] result0 && old(wholeGpuReq(task)) ==> old(fitsRelOrIdleGpus(node, task))
 //@   ensures [errorOnlyIfRejected] result1 != nil ==> !result0 && writeFittingDelta
+//@   ensures [opCellsKept] opCellsKept()
+//@   ensures [skelSame] skelSame(ssn)
+//@   ensures [sessOKKept] old(sessOK(ssn)) ==> sessOK(ssn) && (forall k string :: (k in ssn.ClusterInfo.Nodes) == old(k in ssn.ClusterInfo.Nodes))
+//@   ensures [predicatesKept] ssn.PredicateFns == old(ssn.PredicateFns) && (forall i int :: 0 <= i && i < len(ssn.PredicateFns) ==> ssn.PredicateFns[i] == old(ssn.PredicateFns[i]))
 //@ end
 
 // C04 "every pod the scheduler binds or nominates goes to a node that ... (all hard constraints)" / C08 / C01 / C05:
@@ -953,7 +961,6 @@ package framework
 // callback is consulted by the predicates plugin's PredicateFn, i.e. inside predicatesOK, not by this body).
 //@ func (*Session).FittingNode
 //@   props C01 C03 C04 C08
-//@   usestable []Operation Session.ClusterInfo Session.Cache Session.eventHandlers []*EventHandler ClusterInfo.PodGroupInfos ClusterInfo.Nodes map[common_info.PodGroupID]*podgroup_info.PodGroupInfo map[string]*node_info.NodeInfo
 //@   nopanic off
 //@   note nopanic off: task / node / ssn.ClusterInfo are dereferenced for log lines and look-ups; their non-nil-ness is the caller's matter (common.allocateTask is `nopanic off` too)
 //@   requires ssn != nil
@@ -1230,24 +1237,83 @@ package framework
 //@   ensures [sessionKept] old(sessOK(ssn)) ==> sessionKept(ssn)
 //@ end
 
+// ---- pod-set / sub-group-set comparators (as JobOrderFn / TaskOrderFn above): the first registered comparator that
+// is not neutral decides; the fallback orders by name.
+//@ define psOf(x interface{}) *subgroup_info.PodSet = unbox(x, "*subgroup_info.PodSet")
+//@ define isPS(x interface{}) bool = typeis(x, "*subgroup_info.PodSet") && psOf(x) != nil
+//@ define psCmp(ssn *Session, i int, l interface{}, r interface{}) int = common_info.cmpVerdict(ssn.PodSetOrderFns[i], l, r)
+//@ define psNeutral(ssn *Session, l interface{}, r interface{}) bool = forall i int :: 0 <= i && i < len(ssn.PodSetOrderFns) ==> psCmp(ssn, i, l, r) == 0
+//@ define psDecider(ssn *Session, k int, l interface{}, r interface{}) bool = 0 <= k && k < len(ssn.PodSetOrderFns) && psCmp(ssn, k, l, r) != 0 && (forall i int :: 0 <= i && i < k ==> psCmp(ssn, i, l, r) == 0)
 //@ func (*Session).PodSetOrderFn
 //@   props C01 C03 C04
-//@   trusted
-//@   note assumed read-only: runs the registered PodSetOrderFns comparators (function values); the order itself is not constrained here
 //@   requires ssn != nil
+//@   assume isPS(l) && isPS(r)
+//@   note assumed: the comparator is only handed pod sets (priority queues of *subgroup_info.PodSet built in podgroup_info / actions/common)
+//@   assume forall i int :: 0 <= i && i < len(ssn.PodSetOrderFns) ==> ssn.PodSetOrderFns[i] != nil
+//@   note assumed: no nil function is registered
 //@   pure
+//@   loop 1
+//@     invariant 0 - 1 <= rangeindex && rangeindex < len(ssn.PodSetOrderFns)
+//@     invariant forall i int :: 0 <= i && i <= rangeindex ==> psCmp(ssn, i, l, r) == 0
+//@     decreases len(ssn.PodSetOrderFns) - rangeindex
+//@   ensures [nameFallback] psNeutral(ssn, l, r) ==> result == (psOf(l).name < psOf(r).name)
+//@   ensures [firstPluginDecides] forall k int :: psDecider(ssn, k, l, r) ==> result == (psCmp(ssn, k, l, r) < 0)
 //@ end
+
+//@ define sgsOf(x interface{}) *subgroup_info.SubGroupSet = unbox(x, "*subgroup_info.SubGroupSet")
+//@ define isSGS(x interface{}) bool = typeis(x, "*subgroup_info.SubGroupSet") && sgsOf(x) != nil
+//@ define sgsCmp(ssn *Session, i int, l interface{}, r interface{}) int = common_info.cmpVerdict(ssn.SubGroupSetOrderFns[i], l, r)
+//@ define sgsNeutral(ssn *Session, l interface{}, r interface{}) bool = forall i int :: 0 <= i && i < len(ssn.SubGroupSetOrderFns) ==> sgsCmp(ssn, i, l, r) == 0
+//@ define sgsDecider(ssn *Session, k int, l interface{}, r interface{}) bool = 0 <= k && k < len(ssn.SubGroupSetOrderFns) && sgsCmp(ssn, k, l, r) != 0 && (forall i int :: 0 <= i && i < k ==> sgsCmp(ssn, i, l, r) == 0)
 //@ func (*Session).SubGroupSetOrderFn
 //@   props C01 C03 C04
-//@   trusted
-//@   note assumed read-only: runs the registered SubGroupSetOrderFns comparators (function values); the order itself is not constrained here
 //@   requires ssn != nil
+//@   assume isSGS(l) && isSGS(r)
+//@   note assumed: the comparator is only handed sub-group sets
+//@   assume forall i int :: 0 <= i && i < len(ssn.SubGroupSetOrderFns) ==> ssn.SubGroupSetOrderFns[i] != nil
+//@   note assumed: no nil function is registered
 //@   pure
+//@   loop 1
+//@     invariant 0 - 1 <= rangeindex && rangeindex < len(ssn.SubGroupSetOrderFns)
+//@     invariant forall i int :: 0 <= i && i <= rangeindex ==> sgsCmp(ssn, i, l, r) == 0
+//@     decreases len(ssn.SubGroupSetOrderFns) - rangeindex
+//@   ensures [nameFallback] sgsNeutral(ssn, l, r) ==> result == (sgsOf(l).name < sgsOf(r).name)
+//@   ensures [firstPluginDecides] forall k int :: sgsDecider(ssn, k, l, r) ==> result == (sgsCmp(ssn, k, l, r) < 0)
+//@ end
+
+// ---- GPU ranking of one node (C02): FittingGPUs = filter (fits the GPU group / a whole GPU is idle or releasing),
+// score every candidate through GpuOrderFn, order by score. Verified: read-only (`pure`), every listed shared GPU group
+// passed node.IsTaskFitOnGpuGroup; the order itself (sort.Sort on the score keys) is library code.
+//@ func sortGPUs
+//@   props C02
+//@   trusted
+//@   note sort.Sort(sort.Reverse(sort.Float64Slice(..))) over the score keys: library sort through interfaces, outside the subset; assumed read-only (it sorts a slice it allocated itself); the order is not constrained
+//@   pure
+//@ end
+//@ func filterGpusByEnoughResources
+//@   props C02
+//@   requires node != nil && pod != nil
+//@   assume pod.ResReq != nil && node.Idle != nil && node.Releasing != nil
+//@   note assumed: the task's ResReq and the node's Idle / Releasing vectors exist (snapshot invariants, node_info.nodeReadable / taskReadable)
+//@   pure
+//@   loop 1
+//@     invariant forall i int :: 0 <= i && i < len(filteredGPUs) ==> node_info.fitsGpuGroup(node, pod.ResReq, filteredGPUs[i])
+//@   loop 2
+//@     invariant forall i int :: 0 <= i && i < len(filteredGPUs) && filteredGPUs[i] != pod_info.WholeGpuIndicator ==> node_info.fitsGpuGroup(node, pod.ResReq, filteredGPUs[i])
+//@   ensures [sharedGroupsFit] forall i int :: 0 <= i && i < len(result) && result[i] != pod_info.WholeGpuIndicator ==> node_info.fitsGpuGroup(node, pod.ResReq, result[i])
+//@ end
+//@ func (*Session).sortGPUs
+//@   props C02
+//@   requires ssn != nil
+//@   nopanic off
+//@   note nopanic off: node.Name is read for an error log line only
+//@   pure
+//@   loop 1
+//@     invariant 0 - 1 <= rangeindex && rangeindex < len(filteredGPUs)
+//@     decreases len(filteredGPUs) - rangeindex
 //@ end
 //@ func (*Session).FittingGPUs
 //@   props C01 C02
-//@   trusted
-//@   note assumed read-only: ranks the node's GPU groups through the registered GpuOrderFn plugin callbacks (function values, outside the subset); the returned list is not constrained
 //@   requires ssn != nil && node != nil && pod != nil
 //@   pure
 //@ end
@@ -1265,16 +1331,86 @@ package framework
 //@   ensures [onlyInputNodes] forall i int :: 0 <= i && i < len(result) ==> result[i] != nil && (exists j int :: 0 <= j && j < len(nodes) && nodes[j] == result[i])
 //@   ensures [inputKept] forall j int :: 0 <= j && j < len(nodes) ==> nodes[j] == old(nodes[j])
 //@ end
+// log line only: builds name lists in fresh slices
+//@ func logNodeSetsPluginResult
+//@   props C04
+//@   nopanic off
+//@   note nopanic off: node.Name / podGroup.Namespace are read for a log line (nil entries are the caller's matter)
+//@   pure
+//@   loop 1
+//@     invariant true
+//@   loop 2
+//@     invariant true
+//@ end
+
+// node n is one of the nodes of the candidate set handed in
+//@ define inInit(initNodeSet node_info.NodeSet, n *node_info.NodeInfo) bool = exists j int :: 0 <= j && j < len(initNodeSet) && old(initNodeSet[j]) == n
+// every node of every set of S is a non-nil node of the candidate set (cell form: quantified over the element cells)
+// candNode: LOCAL ABBREVIATION of the unit (*Session).SubsetNodesFn for "non-nil node of the candidate set" (fixed by an
+// `assume` at the unit's entry and used nowhere else; it keeps the existential out of the loop invariants)
+//@ declare candNode(n *node_info.NodeInfo) bool
+//@ define subsetsOK(S []node_info.NodeSet) bool = forall a int :: 0 <= a && a < len(S) ==> (forall i int :: 0 <= i && i < len(S[a]) ==> candNode(S[a][i]))
 //@ func (*Session).SubsetNodesFn
 //@   props C01 C03 C04
-//@   trusted
-//@   note assumed frame of the registered SubsetNodesFns (function values), and ASSUMED (not proved here) that every registered subset function (topology plugin) returns subsets of the node set it is given; with no function registered the result is the input set itself
+//@   usestable []Operation Session.SubsetNodesFns []api.SubsetNodesFn []*node_info.NodeInfo []node_info.NodeSet Session.ClusterInfo Session.Cache Session.eventHandlers []*EventHandler ClusterInfo.PodGroupInfos ClusterInfo.Nodes map[common_info.PodGroupID]*podgroup_info.PodGroupInfo map[string]*node_info.NodeInfo
+//@   nopanic off
+//@   note nopanic off: podGroup.Namespace is read for log lines only (a nil podGroup is the caller's matter)
 //@   requires ssn != nil
+//@   assume forall i int :: 0 <= i && i < len(ssn.SubsetNodesFns) ==> ssn.SubsetNodesFns[i] != nil
+//@   note assumed: no nil function is registered
+//@   assume forall j int :: 0 <= j && j < len(initNodeSet) ==> initNodeSet[j] != nil
+//@   note assumed: the candidate set holds no nil node (the trusted contract this block replaces promised non-nil result nodes even with no subset function registered, i.e. it assumed the same)
+//@   assume forall n *node_info.NodeInfo :: candNode(n) == (n != nil && inInit(initNodeSet, n))
+//@   note the assume on candNode defines a local abbreviation (a declared symbol constrained nowhere else), it is no assumption about the program
 //@   modifies *
+//@   loop 1
+//@     modifies *
+//@     invariant 0 - 1 <= rangeindex && rangeindex < len(ssn.SubsetNodesFns)
+//@     invariant ssn.SubsetNodesFns == old(ssn.SubsetNodesFns)
+//@     invariant subsetsOK(nodeSets)
+//@     invariant rangeindex == 0 - 1 ==> len(nodeSets) == 1 && nodeSets[0] == initNodeSet
+//@     invariant pluginFrame()
+//@     invariant skelSame(ssn)
+//@     decreases len(ssn.SubsetNodesFns) - rangeindex
+//@   loop 2
+//@     modifies *
+//@     invariant 0 - 1 <= rangeindex && rangeindex < len(nodeSets)
+//@     invariant ssn.SubsetNodesFns == old(ssn.SubsetNodesFns)
+//@     invariant subsetsOK(nodeSets)
+//@     invariant subsetsOK(newNodeSets)
+//@     invariant pluginFrame()
+//@     invariant skelSame(ssn)
+//@     decreases len(nodeSets) - rangeindex
 //@   ensures [logsSame] logsSame()
 //@   ensures [virtual] noEmission() && reversals() == old(reversals()) && reverseFailures() == old(reverseFailures())
 //@   ensures [sessionKept] old(sessOK(ssn)) ==> sessionKept(ssn)
+//@   hint [cellForm] result1 == nil ==> subsetsOK(result0)
 //@   ensures [subsetsOfParent] result1 == nil ==> forall a int, i int :: 0 <= a && a < len(result0) && 0 <= i && i < len(result0[a]) ==> result0[a][i] != nil && (exists j int :: 0 <= j && j < len(initNodeSet) && initNodeSet[j] == result0[a][i])
+//@   ensures [noSubsetFnIsIdentity] old(len(ssn.SubsetNodesFns)) == 0 ==> result1 == nil && len(result0) == 1 && result0[0] == initNodeSet
+//@   ensures [errorMeansNoSets] result1 != nil ==> len(result0) == 0
+//@ end
+
+// ---- session.go: configuration getters ------------------------------------------------------------------------
+// C10/C16 "jobs depth": the per-action queue depth, infinite (-1) when the action has no entry
+//@ func (*Session).GetJobsDepth
+//@   props C10 C16 C05
+//@   requires ssn != nil && ssn.Config != nil
+//@   pure
+//@   ensures [configured] string(action) in ssn.Config.QueueDepthPerAction ==> result == ssn.Config.QueueDepthPerAction[string(action)]
+//@   ensures [infiniteByDefault] !(string(action) in ssn.Config.QueueDepthPerAction) ==> result == 0 - 1
+//@ end
+
+// number of leaf queues (queues without children) of the snapshot; used for a log line only
+//@ func (*Session).CountLeafQueues
+//@   props C10
+//@   requires ssn != nil && ssn.ClusterInfo != nil
+//@   assume forall k in ssn.ClusterInfo.Queues :: ssn.ClusterInfo.Queues[k] != nil
+//@   note assumed: no nil queue is recorded in the snapshot
+//@   pure
+//@   loop 1
+//@     invariant forall k in visited :: k in ssn.ClusterInfo.Queues
+//@     invariant cnt == (count k in visited :: len(ssn.ClusterInfo.Queues[k].ChildQueues) == 0)
+//@   ensures [countsLeaves] result == (count k in ssn.ClusterInfo.Queues :: len(ssn.ClusterInfo.Queues[k].ChildQueues) == 0)
 //@ end
 
 // ---- stable fields (engine batches 7-9): written by constructors / plugin registration only; govc checks
@@ -1295,6 +1431,10 @@ package framework
 //@ stable slicetype []api.PredicateFn
 //@ stable Session.PrePredicateFns
 //@ stable slicetype []api.PrePredicateFn
+//@ stable Session.SubsetNodesFns
+//@ stable slicetype []api.SubsetNodesFn
+//@ stable slicetype []*node_info.NodeInfo
+//@ stable slicetype []node_info.NodeSet
 //@ stable Session.NodeOrderFns
 //@ stable slicetype []api.NodeOrderFn
 //@ stable Session.NodePreOrderFns
